@@ -87,7 +87,7 @@ func (ip *GenericBlockIndexProvider) BlocksInRange(baseBlock, bundleSize uint64)
 		if block < baseBlock {
 			continue
 		}
-		if block > exclusiveUpperBound {
+		if block >= exclusiveUpperBound {
 			break
 		}
 		out = append(out, block)
